@@ -255,3 +255,19 @@ package client
 //@ requires c != nil && c.httpClient != nil
 //@ at g assert [asks-its-own-shard] g.c == c
 //@ at s assert [reports-exactly-that-shards-answer] s.x.roots == g.res0 && s.x.err == g.res1
+
+// C18 / C12: the shard configuration loader. No file name, an unreadable file or a file that parses in
+// neither form is an error; the text form is tried first; an accepted configuration has a shard.
+//@ func TemporalLogConfigFromFile
+//@ props C18 C12
+//@ arith int
+//@ site os.ReadFile#1 as rf
+//@ site prototext.Unmarshal#1 as tx
+//@ site proto.Unmarshal#1 as bin
+//@ ensures [no-file-name-is-an-error] len(filename) == 0 ==> result1 != nil && result0 == nil && !rf.called
+//@ ensures [unreadable-file-is-an-error] rf.called && rf.res1 != nil ==> result1 != nil && result0 == nil && !tx.called
+//@ ensures [binary-form-only-after-the-text-form-failed] bin.called ==> tx.called && tx.res != nil
+//@ ensures [neither-form-parses-is-an-error] tx.called && tx.res != nil && bin.res != nil ==> result1 != nil && result0 == nil
+//@ ensures [accepted-means-at-least-one-shard] result1 == nil ==> result0 != nil && len(result0.Shard) > 0
+//@ at tx assert [text-form-of-the-file-contents] tx.b == rf.res0
+//@ at bin assert [binary-form-of-the-same-contents-into-the-same-message] bin.b == rf.res0 && bin.m == tx.m
